@@ -209,14 +209,17 @@ def run_flat(ctx):
         use_list = ordered and rng.random() < 0.4
         subgraders = [lib.TableGrader(table=table, ids=True) for _ in range(n)] if use_list else sub
         answers = [l[0] for l in lists]
+        debug = rng.random() < 0.15
+        if debug:
+            ctx.count('debug_list_graders')
         g = ListGrader(answers=answers[0] if nlists == 1 else tuple(answers), subgraders=subgraders, ordered=ordered,
-                       partial_credit=partial_credit)
+                       partial_credit=partial_credit, debug=debug)
         base_inputs = ['I%d' % j for j in range(n)]
         perms = list(itertools.permutations(base_inputs))
         if len(perms) > ctx.pick(60, 720):
             perms = rng.sample(perms, ctx.pick(60, 720))
         ctx.count('permutation_sets')
-        wit0 = {'n': n, 'ordered': ordered, 'partial_credit': partial_credit, 'answer_lists': answers,
+        wit0 = {'n': n, 'ordered': ordered, 'partial_credit': partial_credit, 'debug': debug, 'answer_lists': answers,
                 'table': sorted([[a, b, c] for (a, b), c in table.items() if c])}
         bests = set()
         nontrivial = False
@@ -305,7 +308,7 @@ def run_grouped(ctx):
                     elif rng.random() < 0.15:
                         table[('G%dS%d' % (gi, s), inputs[p])] = rng.choice([0.1, 1 / 3.])
         inner = ListGrader(subgraders=lib.TableGrader(table=table, ids=True), ordered=inner_ordered)
-        g = ListGrader(answers=answers, subgraders=inner, ordered=outer_ordered, grouping=slots)
+        g = ListGrader(answers=answers, subgraders=inner, ordered=outer_ordered, grouping=slots, debug=(i % 7 == 3))
         out = lib.call(ctx, g, None, list(inputs))
         ctx.ev()
         ctx.count('list_calls')
